@@ -93,9 +93,9 @@ def plan_cfg(plan, k=1, s=0, emit=False, invs=True, defects="MCNoDefects"):
 
 # plans: (name, constants).  The state space of each plan is partitioned exactly by the shards.
 QUICK_PLANS = [
-    ("1req", dict(maxreqs=1, first="MCAll", later="MCTiny", disp="MCDispAll", held=0, cuts="FALSE")),
+    ("1req", dict(maxreqs=1, first="MCAll", later="MCTiny", disp="MCDispAll", held=0, cuts="FALSE", ns="{1}")),
     ("2req", dict(maxreqs=2, first="MCTiny", later="MCTiny", disp="MCDispSmall", held=1, cuts="TRUE",
-                  rets='{"F", "1"}', ns="{1}")),
+                  rets='{"F", "1"}', ns="{1}", routes='{"direct"}')),
 ]
 THOROUGH_PLANS = [
     ("1req-full", dict(maxreqs=1, first="MCAll", later="MCAll", disp="MCDispAll", held=0, cuts="FALSE")),
